@@ -10,6 +10,12 @@ Three kinds of cases, all against the real code of the tree under test:
   re      the live compiled regex of a base type (`lang.X.regex.match(text, pos)`)
           against `Re.pyMatch` on the generated AST: engine + translator.
   proc    the live default conversion lambdas against `Gen.Procs`.
+
+A tokens case may carry `hist` (round X04): the line is then loaded through a *fresh* meta-model
+(`v*=` / `v+=` / `v=TYPE`, construction parameters) that went through a history of
+`register_obj_processors` calls (on it and on another meta-model) and earlier loads; at the end the
+built-in conversion of the type is in force by the documented semantics ("registration replaces the
+previous one") and the property's conclusion applies.  Lean side: `Registry.after`.
 """
 import math
 import re
@@ -37,6 +43,107 @@ def _mm(ty):
 
 def cps(s):
     return [ord(c) for c in s]
+
+
+# ---------------------------------------------------------------------- histories (round X04)
+# The property speaks about the *built-in* conversions.  They have to be in force on every meta-model on which no
+# user processor is currently registered for the base type -- whatever happened before on this meta-model (earlier
+# registrations that were replaced since: "registration of new object processors will replace previous"), on other
+# meta-models of the same process, and whatever construction parameters that do not concern base types were given.
+BASE_KEYS = ["INT", "FLOAT", "STRICTFLOAT", "BOOL", "STRING", "NUMBER"]
+RELEVANT = {"NUMBER": ["NUMBER", "INT", "STRICTFLOAT"]}
+
+
+def _hex(x):
+    try:
+        return int(x, 16)
+    except Exception:
+        return x
+
+
+USER_PROCS = {  # user processors a history may register for a base type (none of them is a faithful conversion)
+    "hex": _hex,
+    "raw": lambda x: x,
+    "tag": lambda x: "<" + str(x) + ">",
+    "len": lambda x: len(str(x)),
+    "obj": lambda o: None,  # for the user class `Model`
+}
+OPT_KEYS = ["memoization", "use_regexp_group", "autokwd"]
+
+
+def relevant_keys(ty):
+    return RELEVANT.get(ty, [ty])
+
+
+def hist_grammar(case):
+    h = case.get("hist") or {}
+    return f"Model: v{h.get('form', '*=')}{case['type']};"
+
+
+def builtins_in_force(case):
+    """does the documented semantics put the built-in conversion of the case's type in force at the final parse?
+    (the last registration on the meta-model under test mentions none of the type's keys)"""
+    h = case.get("hist")
+    if not h:
+        return True
+    last = None
+    for st in h.get("steps", []):
+        if st["op"] == "reg" and st["on"] == "self":
+            last = st
+    return last is None or not any(k in last["procs"] for k in relevant_keys(case["type"]))
+
+
+INFORCE_KEYS = BASE_KEYS + ["Model", "ID"]
+
+
+def reg_history(case):
+    """the register_obj_processors calls on the meta-model under test, in order (what `Registry.after` folds over)"""
+    return [[[k, v] for k, v in st["procs"].items()] for st in case["hist"].get("steps", [])
+            if st["op"] == "reg" and st["on"] == "self"]
+
+
+def in_force(mm):
+    """which callable the meta-model's processor table binds to every key: 'builtin' / 'user:NAME' / 'none'
+    (None when the table is not where the class docstring says it is: then nothing is compared)"""
+    tab = getattr(mm, "_obj_processors", None)
+    if not isinstance(tab, dict):
+        return None
+    names = {id(f): n for n, f in USER_PROCS.items()}
+    out = []
+    for k in INFORCE_KEYS:
+        f = tab.get(k)
+        out.append("none" if f is None else "user:" + names[id(f)] if id(f) in names else "builtin")
+    return out
+
+
+def run_history(case):
+    """a fresh meta-model with the case's construction parameters, taken through the case's history"""
+    from textx import metamodel_from_str
+
+    h = case["hist"]
+    g = hist_grammar(case)
+    opts = {k: True for k in OPT_KEYS if h.get("opts", {}).get(k)}
+    other = metamodel_from_str(g, **opts) if h.get("other_first") else None
+    mm = metamodel_from_str(g, **opts)
+    for st in h.get("steps", []):
+        if st["op"] == "reg":
+            if st["on"] == "self":
+                target = mm
+            else:
+                if other is None:
+                    other = metamodel_from_str(g, **opts)
+                target = other
+            target.register_obj_processors({k: USER_PROCS[v] for k, v in st["procs"].items()})
+        elif st["op"] == "parse":
+            target = mm if st["on"] == "self" else other
+            if target is not None:
+                try:
+                    target.model_from_str(uncps(st["text"]))
+                except Exception:
+                    pass  # earlier loads may fail (syntax errors, a user processor that raises)
+        else:
+            raise ValueError(st["op"])
+    return mm
 
 
 def uncps(l):
@@ -131,6 +238,7 @@ class Prop(Check):
         "BaseTypes.C04_string_text",
         "BaseTypes.C04_scanner_exact",
         "BaseTypes.C04_strInt_kind",
+        "BaseTypes.C04_registration_replaces",
     ]
     DRIVER = "Drivers/Re.lean"
     PROCS_THOROUGH = 3
@@ -141,7 +249,10 @@ class Prop(Check):
             "form; all BOOL spellings) with separators and continuations, through `Model: v*=TYPE;`; re cases: 40 texts "
             "per live regex; proc cases: live conversion lambdas.  non-trivial = a tokens case whose literals all satisfy "
             "the property's hypothesis and that contains an escaped quote, a backslash, a newline, a sign, an exponent, "
-            "a '.' or more than one literal; or a re/proc case with at least one match")
+            "a '.' or more than one literal; or a re/proc case with at least one match.  history cases (round X04): the same "
+            "lines on a fresh meta-model (`v*=`, `v+=`, `v=TYPE`; memoization / use_regexp_group / autokwd) taken through "
+            "register_obj_processors calls with user processors for base types on it and on another meta-model and through "
+            "earlier (also failing) loads, ending with a registration that does not mention the type")
     MODELLED = ("regenerated (tie T): the six base-type regexes of textx/lang.py (Python's re._parser -> Re.R) and the "
                 "default conversion lambdas of textx/metamodel.py (ast -> Gen.Procs); hand-modelled: the regex engine "
                 "(Re.m vs re.match, tie X op re), `v*=TYPE` + EOF with whitespace skipping (BaseTypes.tokens, tie X op "
@@ -150,7 +261,10 @@ class Prop(Check):
                 "generated literal (str(int), repr, %e, %E, %g, %f, .5, 5., 12e5), `lineHyp` (the decidable hypotheses of "
                 "C04_line_checked) is evaluated by the driver on every generated line and compared with the harness's "
                 "own hypothesis predicate, the values the theorem promises are compared with the implementation, and "
-                "Py.strInt is compared with str(int); not exhibited: the numeric value computed by float() (int() is "
+                "Py.strInt is compared with str(int); the processor table (register_obj_processors = fresh copy of the "
+                "defaults updated by the user's dict: Registry.after, theorem C04_registration_replaces) is compared with the "
+                "live `_obj_processors` after every generated history; "
+                "not exhibited: the numeric value computed by float() (int() is "
                 "modelled: Py.intOf), Unicode classification (a parameter; Python's own tables are sent with each case)")
     ASSUMPTIONS = [
         "CPython: float(repr(x)) == x and float() accepts every literal the FLOAT regexes match",
@@ -266,6 +380,94 @@ class Prop(Check):
         return {"k": "tokens", "type": ty, "items": items, "seps": seps, "tail": tail,
                 "text": cps(build_text(items, seps, tail))}
 
+    # ---- histories (round X04)
+    def rand_procs(self, rng, ty, must_lack=False, must_have=False):
+        """a user registration: processors for some base types and / or the user class"""
+        rel = relevant_keys(ty)
+        procs = {}
+        for k in BASE_KEYS:
+            p = 0.6 if k in rel else 0.3
+            if k in rel and must_lack:
+                continue
+            if rng.chance(p) or (must_have and k == rel[-1]):
+                procs[k] = rng.choice(["hex", "raw", "tag", "len"])
+        if rng.chance(0.3):
+            procs["Model"] = "obj"
+        return procs
+
+    def sample_text(self, rng, ty, tier):
+        if rng.chance(0.3):
+            return cps(rng.choice(self.MALFORMED[ty]))
+        return self.tokens_case(rng, ty, tier)["text"]
+
+    def rand_hist(self, rng, ty, tier, has_items):
+        steps = []
+        for _ in range(rng.weighted([(1, 3), (2, 4), (3, 3), (4, 1)])):
+            op = rng.weighted([("reg-self", 5), ("reg-other", 2), ("parse-self", 2), ("parse-other", 1)])
+            if op.startswith("reg"):
+                steps.append({"op": "reg", "on": op[4:], "procs": self.rand_procs(rng, ty, must_have=rng.chance(0.6))})
+            else:
+                steps.append({"op": "parse", "on": op[6:], "text": self.sample_text(rng, ty, tier)})
+        h = {"opts": {k: True for k in OPT_KEYS if rng.chance(0.2)},
+             "form": (("=" if has_items == 1 and rng.chance(0.5) else "+=") if has_items and rng.chance(0.4) else "*="),
+             "other_first": rng.chance(0.5), "steps": steps}
+        probe = {"type": ty, "hist": h}
+        if not builtins_in_force(probe):
+            # the registration is replaced by one that does not mention the type: the built-in conversion is back
+            if rng.chance(0.3):
+                steps.append({"op": "parse", "on": "self", "text": self.sample_text(rng, ty, tier)})
+            steps.append({"op": "reg", "on": "self", "procs": self.rand_procs(rng, ty, must_lack=True)})
+        return h
+
+    def canonical_hists(self, ty):
+        """the shortest histories of every kind, for every type and every run"""
+        allp = {k: p for k, p in zip(BASE_KEYS, ["hex", "raw", "tag", "raw", "raw", "tag"])}
+        others = {k: v for k, v in allp.items() if k not in relevant_keys(ty)}
+        sample = {"STRING": '"a" \'b\'', "INT": "10 -3", "FLOAT": "1.5 2", "STRICTFLOAT": "1.5 2e3", "NUMBER": "1 2.5",
+                  "BOOL": "true 0"}[ty]
+        reg = lambda on, procs: {"op": "reg", "on": on, "procs": procs}  # noqa: E731
+        hs = [
+            [reg("self", allp), reg("self", {})],
+            [reg("self", allp), {"op": "parse", "on": "self", "text": cps(sample)}, reg("self", {"Model": "obj"})],
+            [reg("self", allp), reg("self", others)],
+            [reg("self", {k: allp[k] for k in relevant_keys(ty)}), reg("self", {}), reg("self", {})],
+            [reg("other", allp)],
+            [reg("other", allp), {"op": "parse", "on": "other", "text": cps(sample)}, reg("self", {})],
+            [reg("self", {}), {"op": "parse", "on": "self", "text": cps("?")}],
+        ]
+        out = []
+        for i, steps in enumerate(hs):
+            out.append({"opts": {}, "form": "*=", "other_first": i % 2 == 0, "steps": steps})
+        for k in OPT_KEYS:
+            out.append({"opts": {k: True}, "form": "+=", "other_first": False, "steps": []})
+        out.append({"opts": {}, "form": "=", "other_first": False, "steps": []})
+        out.append({"opts": {}, "form": "=", "other_first": False, "steps": hs[0]})
+        return out
+
+    def hist_cases(self, rng, n, tier):
+        out = []
+        r = rng.fork("hist-canonical")
+        for ty in TYPES:
+            for h in self.canonical_hists(ty):
+                c = self.tokens_case(r, ty, tier)
+                if h["form"] == "=":  # `v=TYPE` reads exactly one literal
+                    c = dict(c, items=c["items"][:1], seps=c["seps"][:1])
+                    c["text"] = cps(build_text(c["items"], c["seps"], c["tail"]))
+                c["hist"] = h
+                c["origin"] = "history-canonical"
+                out.append(c)
+        r = rng.fork("hist")
+        weights = [("STRING", 4), ("INT", 3), ("FLOAT", 3), ("STRICTFLOAT", 2), ("NUMBER", 4), ("BOOL", 2)]
+        for _ in range(n):
+            ty = r.weighted(weights)
+            if r.chance(0.12):
+                c = {"k": "tokens", "type": ty, "items": None, "text": cps(r.choice(self.MALFORMED[ty]))}
+            else:
+                c = self.tokens_case(r, ty, tier)
+            c["hist"] = self.rand_hist(r, ty, tier, len(c.get("items") or []))
+            out.append(c)
+        return out
+
     MALFORMED = {
         "STRING": ['"abc', "'a", '"a\\"', "abc", '"a" b', "'", '""" ', "'a''", '"a\\\\" "b"', '"\\', "'\\' 'x'", '"a\\" "z"'],
         "INT": ["12abc", "--5", "+", "1 2 x", "1_000", "0x10", "1-2", "1 - 2", "٣", "1.5", "+-1", "5 . 5"],
@@ -315,6 +517,9 @@ class Prop(Check):
         weights = [("STRING", 5), ("INT", 3), ("FLOAT", 3), ("STRICTFLOAT", 2), ("NUMBER", 4), ("BOOL", 1)]
         for _ in range(n):
             out.append(self.tokens_case(r, r.weighted(weights), tier))
+        # --- histories: earlier (replaced) registrations of user processors for base types on the same and on another
+        #     meta-model, earlier loads, construction parameters; the built-in conversions must be in force at the end
+        out.extend(self.hist_cases(rng, (2 * n) // 5, tier))
         # --- random mutations of well-formed texts (drop / duplicate / insert a character)
         r = rng.fork("mut")
         for _ in range(n // 4):
@@ -366,6 +571,12 @@ class Prop(Check):
         return out
 
     # ------------------------------------------------------------------ implementation
+    @staticmethod
+    def _with(table, obs):
+        if table is not None:
+            obs["inforce"] = table
+        return obs
+
     def impl(self, case):
         use_repo()
         k = case["k"]
@@ -373,20 +584,24 @@ class Prop(Check):
         if k == "tokens":
             from textx.exceptions import TextXSyntaxError, TextXError
 
+            table = None
             try:
-                mm = _mm(case["type"])
+                mm = run_history(case) if case.get("hist") else _mm(case["type"])
+                table = in_force(mm) if case.get("hist") else None
                 model = mm.model_from_str(text)
             except TextXSyntaxError as e:
                 lines = text.split("\n")
                 pos = sum(len(l) + 1 for l in lines[: e.line - 1]) + (e.col - 1)
-                return {"ok": False, "pos": pos, "line": e.line, "col": e.col}
+                return self._with(table, {"ok": False, "pos": pos, "line": e.line, "col": e.col})
             except TextXError as e:
-                return {"ok": False, "err": type(e).__name__, "msg": str(e)[:200]}
+                return self._with(table, {"ok": False, "err": type(e).__name__, "msg": str(e)[:200]})
             except Exception as e:
-                return {"ok": False, "exc": type(e).__name__, "msg": str(e)[:200]}
+                return self._with(table, {"ok": False, "exc": type(e).__name__, "msg": str(e)[:200]})
             if isinstance(model, str):  # nothing matched: textX returns the (empty) matched text instead of an object
-                return {"ok": True, "vals": [], "noobj": model}
-            return {"ok": True, "vals": [value_view(v) for v in model.v]}
+                return self._with(table, {"ok": True, "vals": [], "noobj": model})
+            if (case.get("hist") or {}).get("form") == "=":  # single assignment: the value itself
+                return self._with(table, {"ok": True, "vals": [value_view(model.v)]})
+            return self._with(table, {"ok": True, "vals": [value_view(v) for v in model.v]})
         if k == "re":
             from textx import lang
 
@@ -422,6 +637,9 @@ class Prop(Check):
                 ints = [it["v"] for it in case["items"] if it["k"] == "int"]
                 if ints:
                     req["ints"] = ints  # Py.strInt against Python's str(int)
+            if case.get("hist"):
+                req["hist"] = reg_history(case)  # Registry.after: the processor table after the registrations
+                req["keys"] = INFORCE_KEYS
             return req
         if k == "re":
             allt = "".join(uncps(p) + uncps(t) for p, t in case["items"])
@@ -448,11 +666,25 @@ class Prop(Check):
             return f"model rejected the request: {out}"
         k = case["k"]
         if k == "tokens":
+            if case.get("hist"):
+                # the processor table: Registry.after (the theorem C04_registration_replaces is about it) against the
+                # live table, and against the harness's own predicate "the built-in conversion is in force"
+                if "inforce" not in out:
+                    return f"model did not answer the registry question: {out}"
+                tab = dict(zip(INFORCE_KEYS, out["inforce"]))
+                mine = all(tab[key] in ("builtin", "none") for key in relevant_keys(case["type"]))  # NUMBER has no entry
+                if mine != builtins_in_force(case):
+                    return f"built-in conversion in force for {self.where(case)}: Lean's table says {mine}, the harness {not mine}"
+                if obs.get("inforce") is not None and obs["inforce"] != out["inforce"]:
+                    return (f"processor table of {self.where(case)}: implementation "
+                            f"{dict(zip(INFORCE_KEYS, obs['inforce']))}, Registry.after {tab}")
+            if not builtins_in_force(case):
+                return None  # a user processor is in force: outside the model and outside the property
             if obs.get("ok") != out.get("ok"):
-                return f"`Model: v*={case['type']};` on {uncps(case['text'])!r}: implementation {obs}, model {out}"
+                return f"{self.where(case)} on {uncps(case['text'])!r}: implementation {obs}, model {out}"
             if obs["ok"]:
                 if len(obs["vals"]) != len(out["vals"]) or not all(self._same_val(m, i) for m, i in zip(out["vals"], obs["vals"])):
-                    return f"values differ on {uncps(case['text'])!r}: implementation {obs['vals']}, model {out['vals']}"
+                    return f"values differ for {self.where(case)} on {uncps(case['text'])!r}: implementation {obs['vals']}, model {out['vals']}"
             elif "pos" in obs:
                 mpos = len(case["text"]) - out["left"]
                 if mpos != obs["pos"]:
@@ -497,7 +729,7 @@ class Prop(Check):
             if kd != want:
                 return (f"literal {it['text']!r} (written by Python for {it['v']}) is classified {kd} by the Lean scanner "
                         f"(expected {want}): it is not of the literal form the C04 theorems quantify over")
-        hyp = self.hypothesis(case)
+        hyp = self.line_hypothesis(case)
         if bool(out["hyp"]) != hyp:
             return (f"hypotheses of the line theorem on {text!r}: Lean decides {out['hyp']}, the harness's predicate says {hyp} "
                     f"(items {[item_text(i) for i in items]}, seps {case.get('seps')}, tail {case.get('tail', '')!r})")
@@ -511,6 +743,12 @@ class Prop(Check):
     # ------------------------------------------------------------------ direct oracle
     @staticmethod
     def hypothesis(case):
+        """do all literals of a tokens case satisfy the property's hypothesis, on a meta-model whose built-in
+        conversion of the type is in force?"""
+        return Prop.line_hypothesis(case) and builtins_in_force(case)
+
+    @staticmethod
+    def line_hypothesis(case):
         """do all literals of a tokens case satisfy the property's hypothesis?"""
         if case["k"] != "tokens" or not case.get("items"):
             return False
@@ -525,7 +763,25 @@ class Prop(Check):
                     return False
         return True
 
+    @staticmethod
+    def where(case):
+        """the grammar and, if any, the history of a tokens case, for messages"""
+        g = f"`{hist_grammar(case)}`"
+        h = case.get("hist")
+        if not h:
+            return g
+        steps = []
+        for st in h.get("steps", []):
+            if st["op"] == "reg":
+                steps.append(f"{'mm' if st['on'] == 'self' else 'other_mm'}.register_obj_processors({st['procs']})")
+            else:
+                steps.append(f"{'mm' if st['on'] == 'self' else 'other_mm'}.model_from_str({uncps(st['text'])!r})")
+        opts = ", ".join(f"{k}=True" for k in OPT_KEYS if h.get("opts", {}).get(k))
+        return g + (f" ({opts})" if opts else "") + (" after " + "; ".join(steps) if steps else "")
+
     def oracle(self, case, obs):
+        if case["k"] == "tokens" and not builtins_in_force(case):
+            return None  # a user processor is registered for the type: the property is about the built-in conversions
         if case["k"] != "tokens":
             if case["k"] == "proc" and case["name"] == "BOOL":
                 t = uncps(case["text"])
@@ -535,14 +791,14 @@ class Prop(Check):
             return None
         if not self.hypothesis(case):
             if not obs.get("ok") and "pos" not in obs:
-                return f"`Model: v*={case['type']};` on {uncps(case['text'])!r} failed otherwise than with a syntax error: {obs}"
+                return f"{self.where(case)} on {uncps(case['text'])!r} failed otherwise than with a syntax error: {obs}"
             return None
         want = [expected_view(it) for it in case["items"]]
         text = uncps(case["text"])
         if not obs.get("ok"):
-            return f"`Model: v*={case['type']};` rejects {text!r} (literals {[item_text(i) for i in case['items']]}): {obs}"
+            return f"{self.where(case)} rejects {text!r} (literals {[item_text(i) for i in case['items']]}): {obs}"
         if obs["vals"] != want:
-            return f"`Model: v*={case['type']};` on {text!r} yields {obs['vals']} instead of {want}"
+            return f"{self.where(case)} on {text!r} yields {obs['vals']} instead of {want}"
         return None
 
     def nontrivial(self, case, obs):
@@ -562,7 +818,33 @@ class Prop(Check):
         return "val" in obs
 
     # ------------------------------------------------------------------ shrinking / search
+    def shrink_hist(self, case):
+        """smaller histories: none at all, a step less, default parameters, a registered key less"""
+        h = case.get("hist")
+        if not h:
+            return
+        yield {k: v for k, v in case.items() if k != "hist"}
+        steps = h.get("steps", [])
+        for i in range(len(steps)):
+            yield dict(case, hist=dict(h, steps=steps[:i] + steps[i + 1:]))
+        if h.get("opts"):
+            yield dict(case, hist=dict(h, opts={}))
+        if h.get("form", "*=") != "*=":
+            yield dict(case, hist=dict(h, form="*="))
+        if h.get("other_first"):
+            yield dict(case, hist=dict(h, other_first=False))
+        for i, st in enumerate(steps):
+            if st["op"] == "reg":
+                for k in st["procs"]:
+                    ps = {a: b for a, b in st["procs"].items() if a != k}
+                    yield dict(case, hist=dict(h, steps=steps[:i] + [dict(st, procs=ps)] + steps[i + 1:]))
+                for k, v in st["procs"].items():
+                    if v not in ("raw", "obj"):
+                        yield dict(case, hist=dict(h, steps=steps[:i] + [dict(st, procs=dict(st["procs"], **{k: "raw"}))] + steps[i + 1:]))
+
     def shrink(self, case):
+        if case["k"] == "tokens":
+            yield from self.shrink_hist(case)
         if case["k"] != "tokens" or not case.get("items"):
             if case["k"] == "tokens":
                 t = uncps(case["text"])
@@ -572,8 +854,11 @@ class Prop(Check):
         items, seps = case["items"], case["seps"]
 
         def mk(its, sps, tail):
-            return {"k": "tokens", "type": case["type"], "items": its, "seps": sps, "tail": tail,
-                    "text": cps(build_text(its, sps, tail))}
+            c = {"k": "tokens", "type": case["type"], "items": its, "seps": sps, "tail": tail,
+                 "text": cps(build_text(its, sps, tail))}
+            if case.get("hist"):
+                c["hist"] = case["hist"]
+            return c
 
         if len(items) > 1:
             for i in range(len(items)):
@@ -600,6 +885,7 @@ class Prop(Check):
         weights = [("STRING", 3), ("INT", 3), ("FLOAT", 3), ("STRICTFLOAT", 3), ("NUMBER", 4), ("BOOL", 1)]
         for _ in range(4000):
             out.append(self.tokens_case(r, r.weighted(weights), tier))
+        out[400:400] = self.hist_cases(rng.fork("extra-hist"), 800, tier)
         return out
 
     def sample_view(self, case, obs):
@@ -617,8 +903,19 @@ class Prop(Check):
             if self.hypothesis(c):
                 hyp += 1
         ex = sum(1 for c in cases if c.get("origin") == "exhaustive")
+        hc = [c for c in cases if c.get("hist")]
+        hist = {"cases": len(hc), "under_hypothesis": sum(1 for c in hc if self.hypothesis(c)),
+                "with_replaced_registration_for_the_type": sum(
+                    1 for c in hc if any(st["op"] == "reg" and st["on"] == "self" and
+                                         any(k in st["procs"] for k in relevant_keys(c["type"])) for st in c["hist"]["steps"])),
+                "with_registration_on_another_metamodel": sum(
+                    1 for c in hc if any(st["op"] == "reg" and st["on"] == "other" for st in c["hist"]["steps"])),
+                "with_earlier_loads": sum(1 for c in hc if any(st["op"] == "parse" for st in c["hist"]["steps"])),
+                "with_construction_parameters": sum(1 for c in hc if c["hist"].get("opts")),
+                "with_plus_assignment": sum(1 for c in hc if c["hist"].get("form") == "+="),
+                "with_single_assignment": sum(1 for c in hc if c["hist"].get("form") == "=")}
         outs = [o for o in (outs or []) if isinstance(o, dict)]
-        return {"distribution": kinds, "tokens_cases_under_hypothesis": hyp,
+        return {"distribution": kinds, "tokens_cases_under_hypothesis": hyp, "histories": hist,
                 "lines_whose_hypotheses_lean_decided_true": sum(1 for o in outs if o.get("hyp") is True),
                 "lines_whose_hypotheses_lean_decided_false": sum(1 for o in outs if o.get("hyp") is False),
                 "literals_classified_by_lean_scanner": sum(len(o.get("kinds", [])) for o in outs),
